@@ -458,6 +458,10 @@ def fieldLoop (T : ClassTable) (r : PVal) (test : PVal → PVal → Except Err B
            | .ok false => fieldLoop T r test nocase strings fs)
     | _ => .error .unmodelled
 
+/-- a regular expression that is just a literal: letters, digits, space, `_`, `/`, `-` (no metacharacter) -/
+def plainPattern (p : String) : Bool :=
+  p.toList.all fun c => c.isAlphanum || c == ' ' || c == '_' || c == '/' || c == '-'
+
 def kwBool (kw : List (String × PVal)) (k : String) (dflt : Bool) : Except Err Bool :=
   match kw.lookup k with
   | none => .ok dflt
@@ -516,6 +520,18 @@ def callC (T : ClassTable) (_rec : PVal) (f : PVal) (args : List PVal) (kw : Lis
           match (if nocase then mapM' lowerC ss else .ok ss) with
           | .error e => .error e
           | .ok ss' => (fieldLoop T r (fun s fv => pyIn T s fv) nocase ss' fs).map PVal.bool)
+     | _, _, _, _, _ => .error .unmodelled)
+  | .builtin "field_regex", r :: fields :: pattern :: rest =>
+    -- `re.search(re.compile(regex), fvalue)` for every field the record has; modelled for patterns without regex
+    -- metacharacters (a plain pattern is a substring test); anything else is `re`'s business (unmodelled)
+    (match r, T.iter fields, pattern, rest, kw with
+     | .recv _ _, some (.ok fs), .str pat, [], [] =>
+       if !plainPattern pat then .error .unmodelled else
+       (fieldLoop T r (fun s fv => match s, fv with
+          | .str p, .str v => .ok (subStr p v)
+          | _, .none => .error .typeErrNone
+          | _, .fval _ _ => .error .unmodelled
+          | _, _ => .error .typeErr) false [.str pat] fs).map PVal.bool
      | _, _, _, _, _ => .error .unmodelled)
   | .ftype "string", [.str s] => .ok (.str s)
   | .ftype "wstring", [.str s] => .ok (.str s)
